@@ -5,11 +5,13 @@ import VerifModel.Model.TextInput
   one row per (time, lead time, location) case, `#` comment lines of which
   `# variable:`, `# units:`, `# x0:`, `# x1:` carry variable metadata.
 
-    * `Table`  : a finite map Case ⇀ Row, location metadata per id, header metadata.
+    * `Table`  : a finite map Case ⇀ Row, location metadata per id (each of lat / lon / elevation
+      may be unknown: `none`), header metadata.
     * `Layout` : everything a writer of the file is free to choose: which columns and in
       which order, date[+hour] or unixtime, leadtime or offset, location or id, altitude or
       elev, the spelling of the p/q/e/other header words, the order of the rows, where the
-      comment lines go, which token stands for a missing value, how each cell is spelled.
+      comment lines go, which token stands for a missing value (in a data cell and in a lat / lon /
+      altitude / elev cell of a location that does not know that coordinate), how each cell is spelled.
     * `render` : Table → Layout → the file (token level: the vocabulary `Tok`/`Word`/`Line`
       of the reader model is shared; nothing of the reader's logic is used here).
 
@@ -33,10 +35,13 @@ inductive Field where
   | other (name : List Char)
   deriving DecidableEq, Repr
 
+/-- location metadata; `none` = not known: every row of that location carries a missing-value
+token in that column (when the column is present) and the coordinate reads as the default 0,
+exactly as when the column is absent -/
 structure Station where
-  lat : Rat
-  lon : Rat
-  elev : Rat
+  lat : Option Rat
+  lon : Option Rat
+  elev : Option Rat
   deriving DecidableEq, Repr
 
 abbrev Row := Field → XR          -- nan = missing
@@ -74,6 +79,7 @@ structure Layout where
   dateOf : Case → Nat                     -- YYYYMMDD written in the date column of that row
   hourOf : Case → Rat                     -- hour column of that row
   miss : Case → Field → Tok               -- the missing-value token of that cell
+  missMeta : Case → Col → Tok             -- the missing-value token of a lat / lon / altitude / elev cell
   spell : Case → Col → List Char × Tok    -- text of a data word (irrelevant to its value)
   blocks : List (List Cmt)                -- block i precedes the i-th non-comment line
 
@@ -100,6 +106,18 @@ def renderVal (v : XR) (m : Tok) : Tok :=
   | .ninf => .ninf
   | .nan => m
 
+/-- a metadata cell: the number, or a missing-value token when the coordinate is not known -/
+def metaTok (o : Option Rat) (m : Tok) : Tok :=
+  match o with
+  | some q => .num q
+  | none => m
+
+/-- what a metadata coordinate reads as: its value, the default 0 when it is not known -/
+def metaVal (o : Option Rat) : XR :=
+  match o with
+  | some q => .fin q
+  | none => .fin 0
+
 def cellTok (T : Table) (L : Layout) (r : Case × Row) : Col → Tok
   | .unixtime => .num r.1.time
   | .date => .num (L.dateOf r.1 : Nat)
@@ -108,10 +126,10 @@ def cellTok (T : Table) (L : Layout) (r : Case × Row) : Col → Tok
   | .offset => .num r.1.lead
   | .location => .num r.1.loc
   | .id => .num r.1.loc
-  | .lat => .num (T.station r.1.loc).lat
-  | .lon => .num (T.station r.1.loc).lon
-  | .altitude => .num (T.station r.1.loc).elev
-  | .elev => .num (T.station r.1.loc).elev
+  | .lat => metaTok (T.station r.1.loc).lat (L.missMeta r.1 .lat)
+  | .lon => metaTok (T.station r.1.loc).lon (L.missMeta r.1 .lon)
+  | .altitude => metaTok (T.station r.1.loc).elev (L.missMeta r.1 .altitude)
+  | .elev => metaTok (T.station r.1.loc).elev (L.missMeta r.1 .elev)
   | .fld f _ => renderVal (r.2 f) (L.miss r.1 f)
 
 def cellWord (T : Table) (L : Layout) (r : Case × Row) (c : Col) : Word :=
@@ -190,12 +208,13 @@ def leadOK (L : Layout) (c : Case) : Prop :=
 def hasIdCol (L : Layout) : Bool := decide (Col.location ∈ L.cols) || decide (Col.id ∈ L.cols)
 
 /-- the location as the file shows it: id (when there is an id column) and the metadata columns
-present; absent metadata reads 0 -/
+present; absent metadata and metadata written as a missing-value token read 0 (never the
+metadata of another location) -/
 def locOf (T : Table) (L : Layout) (id : Rat) : Loc :=
   { id := if hasIdCol L then .fin id else .nan
-    lat := if Col.lat ∈ L.cols then .fin (T.station id).lat else .fin 0
-    lon := if Col.lon ∈ L.cols then .fin (T.station id).lon else .fin 0
-    elev := if Col.altitude ∈ L.cols ∨ Col.elev ∈ L.cols then .fin (T.station id).elev else .fin 0 }
+    lat := if Col.lat ∈ L.cols then metaVal (T.station id).lat else .fin 0
+    lon := if Col.lon ∈ L.cols then metaVal (T.station id).lon else .fin 0
+    elev := if Col.altitude ∈ L.cols ∨ Col.elev ∈ L.cols then metaVal (T.station id).elev else .fin 0 }
 
 structure WF (T : Table) (L : Layout) : Prop where
   /-- the table is a finite map: no two rows for the same case -/
@@ -217,8 +236,11 @@ structure WF (T : Table) (L : Layout) : Prop where
   lead_ok : ∀ r ∈ T.rows, leadOK L r.1
   /-- -999 is the missing-value code and cannot be a coordinate or a metadata value -/
   id_ok : ∀ r ∈ T.rows, r.1.loc ≠ -999
-  meta_ok : ∀ r ∈ T.rows, (T.station r.1.loc).lat ≠ -999 ∧ (T.station r.1.loc).lon ≠ -999 ∧
-      (T.station r.1.loc).elev ≠ -999
+  meta_ok : ∀ r ∈ T.rows, (T.station r.1.loc).lat ≠ some (-999) ∧
+      (T.station r.1.loc).lon ≠ some (-999) ∧ (T.station r.1.loc).elev ≠ some (-999)
+  /-- an unknown lat / lon / elevation is written with a missing-value token (any of them, possibly
+  a different one on every row) -/
+  missMeta_ok : ∀ c k, isMissTok (L.missMeta c k)
   /-- without an id column a location is identified by the metadata columns present -/
   loc_inj : hasIdCol L = false → ∀ r ∈ T.rows, ∀ r' ∈ T.rows,
       locOf T L r.1.loc = locOf T L r'.1.loc → r.1.loc = r'.1.loc
